@@ -231,6 +231,12 @@ let handle (p : string) : string =
   | "ldf" :: _ :: entry :: _ :: [nd; np; ns; dg] ->
     (* one shipped file: the expectation comes from prop.py's independent reading of that file *)
     Printf.sprintf "lx=ok;ndesc=%s;npids=%s;nstores=%s;dg=%s;class=loader:%s:single-file" nd np ns dg entry
+  | ["many"; _] ->
+    (* loading is a function of the files: the N-th load succeeds like the first and holds no descriptor *)
+    "many=ok;class=repeated-loads"
+  | ["race"; _; _] ->
+    (* sizes of a descriptor are functions of the descriptor: first uses cannot interfere *)
+    "race=0;post=0;class=first-use-race"
   | ["conc"; _; _] ->
     (* decoding is a function of descriptor and bytes: concurrent decoders cannot disagree with the
        single-threaded answer *)
